@@ -44,6 +44,9 @@ fn raw_keys() -> Vec<Vec<u8>> {
         let mut x = lp(&FFNS);
         x.extend_from_slice(tail);
         k_.push(x);
+        let mut x = lp(&FF255);
+        x.extend_from_slice(tail);
+        k_.push(x);
     }
     let mut x = lp(b"fo");
     x.extend(lp(b"o"));
@@ -56,7 +59,9 @@ fn raw_keys() -> Vec<Vec<u8>> {
 
 /// the longest namespace, all 0xFF: its length prefix is 0xFFFF too, so the raw prefix has no upper bound
 static FFNS: [u8; 65535] = [0xFF; 65535];
-const SINGLE: [&[u8]; 7] = [b"", b"foo", b"fo", b"\xff", b"f\xff\xff", b"food", &FFNS];
+/// 255 bytes of 0xFF: the raw prefix is 00 FF FF .. FF, the carry of the upper bound reaches byte 0 (seed C07h)
+static FF255: [u8; 255] = [0xFF; 255];
+const SINGLE: [&[u8]; 8] = [b"", b"foo", b"fo", b"\xff", b"f\xff\xff", b"food", &FFNS, &FF255];
 const MULTI: [&[&[u8]]; 5] = [&[], &[b"foo"], &[b"foo", b"bar"], &[b"fo", b"o"], &[b"", b""]];
 const BOUNDS: [Option<&[u8]>; 4] = [None, Some(b""), Some(b"k"), Some(b"\xff")];
 
